@@ -22,7 +22,7 @@ RULE = (
 )
 TIERS = {"quick": {"shards": 8, "n": 700, "budget_s": 200}, "thorough": {"shards": 16, "n": 6000, "budget_s": 2700}}
 FLOOR = {"quick": 200, "thorough": 10000}
-REQUIRED_LABELS = {"quick": ["multi-pair:same-function", "pair:attr->attr", "pair:arg->arg", "pair:arg->kwarg", "pair:attr->arg", "wrap", "eval", "target-not-first", "target-after-self"], "thorough": []}
+REQUIRED_LABELS = {"quick": ["same-name-pair", "multi-pair:same-function", "pair:attr->attr", "pair:arg->arg", "pair:arg->kwarg", "pair:attr->arg", "wrap", "eval", "target-not-first", "target-after-self"], "thorough": []}
 ASSUMPTIONS = [
     "the new name never collides with another parameter of the target function (a collision would be the generator's duplicate, not cdd's)",
     "paths cdd cannot resolve raise; the oracle for a raise is 'output and input files byte-identical'",
@@ -108,6 +108,18 @@ def case_strategy(draw):
     ev = draw(st.integers(0, 4)) == 0
     isrc, ipaths = draw(mod(with_const=ev))
     osrc, opaths = draw(mod())
+    forced = None
+    if not ev and draw(st.integers(0, 2)) == 0:
+        # the most natural use: the input property and the target parameter have the SAME name.  A fresh class holding
+        # an attribute of the target's name is appended to the input module (nothing existing is renamed).
+        tgt_args = [p for p in opaths if p[1] in ("arg", "kwarg")]
+        if tgt_args:
+            t = draw(st.sampled_from(tgt_args))
+            ann, val = draw(scal), draw(st.sampled_from(["1", "-2", "'s'", "True", "0.5", "(1, 2)"]))
+            cname = "Samename%d" % draw(st.integers(0, 9))
+            if ("class %s(" % cname) not in isrc:
+                isrc += "class %s(object):\n    %s: %s = %s\n" % (cname, t[2][0], ann, val)
+                forced = ([cname + "." + t[2][0], "attr", [t[2][0], ann, val], {"idx": 0, "names": [t[2][0]], "hasdef": True, "first": None}], t)
     if ev:
         ip = ipaths[0]
         op = draw(st.sampled_from(opaths))
@@ -118,6 +130,8 @@ def case_strategy(draw):
         # valid pairs: attr->attr, arg/kwarg->arg/kwarg, attr->arg/kwarg; the new name must not collide in the target
         cands = [p for p in ipaths if not (op[1] == "attr" and p[1] != "attr") and (p[2][0] == op[2][0] or p[2][0] not in op[3]["names"]) and p[2][0] not in ("self", "cls")]
         ip = draw(st.sampled_from(cands)) if cands else None
+        if forced is not None:
+            ip, op = forced
         wrap = draw(st.sampled_from([None, None, "Optional[{output_param}]", "Union[{output_param}, str]"]))
     return {"isrc": isrc, "osrc": osrc, "ip": ip, "op": op, "wrap": wrap, "eval": ev}
 
@@ -174,6 +188,8 @@ def oracle(case):
         r.label("target-not-first")
     if info.get("first"):
         r.label("target-after-self")
+    if not ev and ip[2][0] == op[2][0]:
+        r.label("same-name-pair")
     d = tempfile.mkdtemp(prefix="c13_", dir="/dev/shm" if os.path.isdir("/dev/shm") else None)
     try:
         i, o = os.path.join(d, "i.py"), os.path.join(d, "o.py")
